@@ -170,6 +170,12 @@ impl Item {
     }
 }
 
+impl Clone for Item {
+    fn clone(&self) -> Item {
+        Item::with_agg(self.id, self.val, self.agg.clone())
+    }
+}
+
 impl Drop for Item {
     fn drop(&mut self) {
         if self.canary != MAGIC ^ self.serial as u64 {
